@@ -866,6 +866,25 @@ def rexpr(func, expr):
     return N.subst(expr, func_env(func))
 
 
+def test_expr(func, node):
+    """The expression tested by a CFG test node with the function's
+    single-assignment locals replaced by what they hold
+    (`ok = s.renew(a); if not ok` tests `s.renew(a)`)."""
+    if node.ast is None:
+        return None
+    return rexpr(func, node.ast)
+
+
+def test_text(func, node):
+    expr = test_expr(func, node)
+    return N.txt(expr) if expr is not None else ''
+
+
+def test_calls(func, node):
+    expr = test_expr(func, node)
+    return list(calls(expr)) if expr is not None else []
+
+
 def rtxt(func, expr):
     """Text of expr after copy propagation of the function's locals."""
     if expr is None:
@@ -895,18 +914,43 @@ def edge_establishes(ctx, func, nz, edge, atom_pred, depth=0):
     if node.kind != 'test' or edge.kind not in ('true', 'false') or \
             depth >= 2 or func is None:
         return False
-    expr = node.ast
+    # the outcome may be that of a helper kept in a local (ok = self.check(x))
+    # or one conjunct of a compound test (a(x) and b(x), taken true)
+    for call, want in _call_outcomes(node.ast, edge.kind == 'true',
+                                     nz.env_of(node) or {}):
+        if _call_establishes(ctx, func, nz, node, call, want, atom_pred,
+                             depth):
+            return True
+    return False
+
+
+def _call_outcomes(expr, want, env, depth=0):
+    """[(call, outcome)] that necessarily hold when ``expr`` evaluates to
+    ``want``."""
+    if depth > 4:
+        return []
+    if isinstance(expr, ast.Call):
+        return [(expr, want)]
     if isinstance(expr, ast.Name):
-        # the outcome of a helper kept in a local: ok = self.check(x)
-        held = (nz.env_of(node) or {}).get(expr.id)
-        if isinstance(held, ast.Call):
-            expr = held
-    if not isinstance(expr, ast.Call):
-        return False
+        held = env.get(expr.id)
+        if held is not None and not isinstance(held, ast.Name):
+            return _call_outcomes(held, want, env, depth + 1)
+        return []
+    if isinstance(expr, ast.UnaryOp) and isinstance(expr.op, ast.Not):
+        return _call_outcomes(expr.operand, not want, env, depth + 1)
+    if isinstance(expr, ast.BoolOp) and (
+            isinstance(expr.op, ast.And) == want):
+        out = []
+        for val in expr.values:
+            out.extend(_call_outcomes(val, want, env, depth + 1))
+        return out
+    return []
+
+
+def _call_establishes(ctx, func, nz, node, expr, want, atom_pred, depth):
     callee = resolve_call(ctx, func, expr)
     if callee is None or callee is func:
         return False
-    want = edge.kind == 'true'
     # bind parameters to the (copy-propagated) argument expressions
     params = callee.params()
     if params and params[0] in ('self', 'cls') and \
@@ -1035,7 +1079,7 @@ def singleton_of(func, expr, want):
     return False
 
 
-def list_contributions(func, name):
+def list_contributions(func, name, _seen=()):
     """How the local list ``name`` of func is built.  Returns a list of
     dicts {elt, var, domains, conditional, node}: ``elt`` the element
     expression (None = every item of the single domain), ``domains`` the
@@ -1111,6 +1155,18 @@ def list_contributions(func, name):
         elif isinstance(value, ast.Call) and callee_text(value) in (
                 'list',) and not value.args:
             pass
+        elif isinstance(value, ast.Name) and value.id != name and \
+                value.id not in _seen and len(_seen) < 3:
+            # X = Y: whatever was collected in the local list Y (a helper's
+            # result list after inlining)
+            inner = list_contributions(func, value.id, _seen + (name,))
+            if not inner:
+                out.append({'other': node})
+            for part in inner:
+                if 'other' not in part:
+                    part = dict(part, conditional=part['conditional'] or
+                                conditional, _done=True)
+                out.append(part)
         else:
             out.append({'other': node})
 
@@ -1136,16 +1192,32 @@ def list_contributions(func, name):
                             'domains': domains, 'conditional': conditional,
                             'node': sub})
             elif call.func.attr == 'extend' and len(call.args) == 1:
-                out.append({'elt': None, 'var': None,
-                            'domains': domains + [(None, call.args[0])],
-                            'conditional': conditional, 'node': sub})
+                arg = call.args[0]
+                inner = None
+                if isinstance(arg, ast.Name) and arg.id != name and \
+                        arg.id not in _seen and len(_seen) < 3:
+                    # acc.extend(part): what was collected in the local
+                    # list `part` (built in this function)
+                    inner = list_contributions(func, arg.id,
+                                               _seen + (name,))
+                    if not inner or any('other' in p for p in inner):
+                        inner = None
+                if inner is not None:
+                    for part in inner:
+                        out.append(dict(
+                            part, conditional=part['conditional'] or
+                            conditional, _done=True))
+                else:
+                    out.append({'elt': None, 'var': None,
+                                'domains': domains + [(None, arg)],
+                                'conditional': conditional, 'node': sub})
             else:
                 out.append({'other': sub})
         elif isinstance(sub, ast.Delete) and any(
                 name in N.txt(t) for t in sub.targets):
             out.append({'other': sub})
     for part in out:
-        if 'other' in part:
+        if 'other' in part or part.get('_done'):
             continue
         conds = list(conds_of.get(id(part['node']), []))
         node = part['node']
@@ -1159,6 +1231,42 @@ def list_contributions(func, name):
     return out
 
 
+def sequence_parts(func, expr, depth=0):
+    """What a sequence expression holds, as list_contributions parts: a
+    local list (its contributions), a display (one part per element), a
+    concatenation `a + b`, `list(x)` / `tuple(x)`."""
+    if depth > 3:
+        return [{'other': expr}]
+    if isinstance(expr, ast.Name):
+        return list_contributions(func, expr.id) or [{'other': expr}]
+    if isinstance(expr, (ast.List, ast.Tuple)):
+        out = []
+        for elt in expr.elts:
+            if isinstance(elt, ast.Starred):
+                out.extend(sequence_parts(func, elt.value, depth + 1))
+            else:
+                out.append({'elt': elt, 'var': None, 'domains': [],
+                            'conditional': False, 'node': expr,
+                            'conds': []})
+        return out
+    if isinstance(expr, ast.BinOp) and isinstance(expr.op, ast.Add):
+        return sequence_parts(func, expr.left, depth + 1) + \
+            sequence_parts(func, expr.right, depth + 1)
+    if isinstance(expr, ast.Call) and callee_text(expr) in (
+            'list', 'tuple') and len(expr.args) == 1 and not expr.keywords:
+        return sequence_parts(func, expr.args[0], depth + 1)
+    if isinstance(expr, ast.ListComp):
+        doms, cond, conds = [], False, []
+        for gen in expr.generators:
+            doms.append((gen.target, gen.iter))
+            cond = cond or bool(gen.ifs)
+            conds.extend((test, True) for test in gen.ifs)
+        return [{'elt': expr.elt, 'var': expr.generators[-1].target,
+                 'domains': doms, 'conditional': cond, 'node': expr,
+                 'conds': conds}]
+    return [{'other': expr}]
+
+
 def _fn_body(fdef):
     body = list(fdef.body)
     if body and isinstance(body[0], ast.Expr) and isinstance(
@@ -1168,11 +1276,47 @@ def _fn_body(fdef):
     return body
 
 
+def _select_assigns(body):
+    """`if T: n = A else: n = B` and `n = B; if T: n = A` as the single
+    binding `n = A if T else B` (a flag chosen by a test)."""
+    def single(stmts):
+        if len(stmts) == 1 and isinstance(stmts[0], ast.Assign) and \
+                len(stmts[0].targets) == 1 and \
+                isinstance(stmts[0].targets[0], ast.Name):
+            return stmts[0]
+        return None
+    out = []
+    for stmt in body:
+        if isinstance(stmt, ast.If):
+            then, other = single(stmt.body), single(stmt.orelse)
+            if then is not None and other is not None and \
+                    then.targets[0].id == other.targets[0].id:
+                out.append(ast.Assign(
+                    targets=[then.targets[0]],
+                    value=ast.IfExp(test=stmt.test, body=then.value,
+                                    orelse=other.value)))
+                continue
+            prev = out[-1] if out else None
+            if then is not None and not stmt.orelse and \
+                    isinstance(prev, ast.Assign) and \
+                    len(prev.targets) == 1 and \
+                    isinstance(prev.targets[0], ast.Name) and \
+                    prev.targets[0].id == then.targets[0].id and \
+                    then.targets[0].id not in N.mentions(stmt.test):
+                out[-1] = ast.Assign(
+                    targets=[then.targets[0]],
+                    value=ast.IfExp(test=stmt.test, body=then.value,
+                                    orelse=prev.value))
+                continue
+        out.append(stmt)
+    return out
+
+
 def expr_of_function(fdef):
     """A tiny pure function as an expression over its parameters:
     `return E`, or `if T: return A [else:] return B` -> `A if T else B`.
     Returns the expression or None."""
-    body = _fn_body(fdef)
+    body = _select_assigns(_fn_body(fdef))
     if len(body) == 1 and isinstance(body[0], ast.Return) and \
             body[0].value is not None:
         return body[0].value
@@ -1200,7 +1344,10 @@ def expr_of_function(fdef):
                     return None
                 seen.add(name)
                 env[name] = N.subst(copy.deepcopy(st.value), env)
-            return N.subst(copy.deepcopy(ret), env)
+            out = N.subst(copy.deepcopy(ret), env)
+            if N.mentions(out) & seen:
+                return None     # a local could not be read through
+            return out
     if body and isinstance(body[0], ast.If) and len(body[0].body) == 1 and \
             isinstance(body[0].body[0], ast.Return) and \
             body[0].body[0].value is not None:
@@ -1272,6 +1419,9 @@ def sort_key_tuple(index, func, call):
         rets = [s for s in walk_no_nested(keyfunc.node)
                 if isinstance(s, ast.Return)]
         tup = rets[0].value if len(rets) == 1 else None
+        whole = expr_of_function(keyfunc.raw)
+        if isinstance(whole, ast.Tuple):
+            tup = whole         # locals of the key function read through
     return keyfunc, param, tup
 
 
